@@ -441,6 +441,12 @@ func (s *scripted) Receive(c *actor.Context) {
 		env.overlaps++
 		env.rc.Violate2("C02", "overlapping-receive", "actor %s: Receive(%s) entered while another Receive of the same actor was in progress", in.ID, dNames[k])
 	}
+	if cur, ok := c.Receiver().(*scripted); ok && cur != s {
+		// the context names another receiver as the current one: this delivery
+		// went to a receiver that has been replaced
+		env.rc.Violate2("C13", "chain-ends-at-stale-receiver", "actor %s: %s was handed (through the chain) to the receiver of incarnation %d while incarnation %d is the current receiver", in.ID, dNames[k], s.inc, cur.inc)
+		env.rc.Violate2("C05", "delivered-to-failed-incarnation", "actor %s: %s went to the receiver of incarnation %d although incarnation %d is current", in.ID, dNames[k], s.inc, cur.inc)
+	}
 	in.open++
 	simrt.Access(in, true, "Receive("+dNames[k]+") of "+in.ID)
 	if s.inc < len(in.Incs) {
@@ -774,6 +780,13 @@ func setKnobs(rc *core.RunCtx) (batch int64) {
 	batch = []int64{4096, 1, 2, 3, 5}[g.IntN(5)]
 	if batch != 4096 {
 		simrt.SetKnob("actor.messageBatchSize", batch)
+	}
+	// the worker's "I have had my share, let others run" branch is taken after
+	// `throughput` non-empty pops in a row: make it reachable with a few messages
+	if tp := []int64{300, 300, 1, 2, 3}[g.IntN(5)]; tp != 300 {
+		if simrt.SetKnob("actor.defaultThroughput", tp) {
+			rc.Scen("throughput knob=%d", tp)
+		}
 	}
 	return
 }
